@@ -220,6 +220,8 @@ void EGLPNUM_TYPENAME_init_internal_lpinfo (
 	lp->cnts = 0;
 	lp->bchanges = 0;
 	lp->cchanges = 0;
+	init_lp_status_info (&(lp->probstat));
+	init_lp_status_info (&(lp->basisstat));
 	EGLPNUM_TYPENAME_ILLsvector_init (&(lp->zz));
 	EGLPNUM_TYPENAME_ILLsvector_init (&(lp->yjz));
 	EGLPNUM_TYPENAME_ILLsvector_init (&(lp->zA));
